@@ -200,6 +200,7 @@ def c05_rules():
         lambda prog, tier: rowcopy.run(prog, shared_eff(prog)),
         lambda prog, tier: normlen.run(prog),
         lambda prog, tier: inval.run_pricedim(prog, shared_eff(prog)),
+        lambda prog, tier: inval.run_failpath(prog, shared_eff(prog)),
         lambda prog, tier: vtypezero.run(prog),
         lambda prog, tier: escape.run_extcopy(prog),
     ]
@@ -678,7 +679,8 @@ _ADD = {
                            "stores into the arrays of the column matrix has tested-and-released the cached row copy rA on a dominating position "
                            "(mutators computed from effect summaries); (R-NORMLEN) every relative change of a basis record's row / structural count is "
                            "accompanied on every path by code that deals with the corresponding norm array; (R-PRICEDIM) a public function that may change "
-                           "the row / column count resets factorok or releases the devex data of the pricing record on every success path."},
+                           "the row / column count resets factorok or releases the devex data of the pricing record on every success path; (R-INVALPART) "
+                           "a public caller of a batch routine that can fail half-way drops the cached solution on the failing paths too."},
     "C07": {"technique": "; computed simplex-state fields of lpinfo + unguarded-read summaries + dominance of the API hand-over by the factorok test; "
                          "alphabet discovery + dominating-validator check for caller-supplied selector letters",
             "explanation": " (R-LPSTATE) the index-taking calls that work on the simplex data of the problem (tableau rows, pivot-in lists, basis "
